@@ -42,7 +42,8 @@ RULE = ("generated: paired runs (without / with transforms) of the real code on 
         "every case also runs an evaluator step whose evaluation fails (no function values) without and with the "
         "transforms and compares the constraint information of that result; evaluator and optimizer steps carry a 'last' and a "
         "'best' tracker without tolerance (BasicOptimizer its own 'best' tracker): the retained result must be the user-domain "
-        "object of the delivered results, for 'last' the last function result, equal with and without transforms. Levels: EnsembleEvaluator.calculate, evaluator step, optimizer "
+        "object of the delivered results, for 'last' the last function result (also checked inside Coq against the tracker model, "
+        "Chk_C11.trk_ok), equal with and without transforms. Levels: EnsembleEvaluator.calculate, evaluator step, optimizer "
         "step and BasicOptimizer (configuration dict, or EnOptConfig validated with the transforms) driven by a scripted optimizer "
         "plug-in. Every run issues a sequence of evaluator calls: function+gradient in one call or function then gradient-only "
         "(cached function) at the start vector, then further single function requests (1-D or 1-row 2-D), 2-D batches of 2-3 "
@@ -617,6 +618,20 @@ def _calls(case):
     return [(kind[op["k"]], [p0] if op["init"] else op["pts"]) for op in case["ops"]]
 
 
+def _trk_run_term(case, run):
+    tk = run["tracked"]
+    oz = lambda t: "None" if t is None or t["index"] is None else f"(Some ({int(t['index'])})%Z)"  # noqa: E731
+    return ("(Build_trkrun " + " ".join([cq.b("last" in tk), oz(tk.get("last")), cq.b("best" in tk),
+                                         cq.b(case["level"] != "basic"), oz(tk.get("best"))]) + ")")
+
+
+def _trk_term(case, obs):
+    P, T = obs["plain"], obs["scaled"]
+    if P.get("tracked") is None or T.get("tracked") is None:
+        return "None"
+    return f"(Some ({_trk_run_term(case, P)}, {_trk_run_term(case, T)}))"
+
+
 def _fail_term(obs):
     f = obs.get("fail")
     if f is None:
@@ -639,7 +654,8 @@ def coq_case(case, obs):
         cq.q(_scale(case, obs)), f"(codes_ok {pcodes} {bcodes})", user, _lin_term(case["lin"]), _nl_term(case["nl"]),
         cq.b(_has_var_transform(case)), cq.qs(ss), cq.qs(os_), cq.qs(fs), _opt(tr["nl_scales"], cq.qs),
         cq.nat(len(case["weights"])), _tens(case["samples"]), calls, _run_term(obs["plain"]), _run_term(obs["scaled"]),
-        cq.lst(_res_term(r) for r in obs["scaled"]["opt"]), _opt(obs["eq"], cq.qs), points, _fail_term(obs)]) + ")")
+        cq.lst(_res_term(r) for r in obs["scaled"]["opt"]), _opt(obs["eq"], cq.qs), points, _trk_term(case, obs),
+        _fail_term(obs)]) + ")")
 
 
 # ---- the property evaluated directly on the implementation's output -----------------------
@@ -897,7 +913,9 @@ MANIFEST = {
                    "exact rational printing. Objective / constraint transforms are the diagonal positive scalers of the test-suite (the base "
                    "classes are abstract); the estimator is a section hypothesis (positive homogeneity; instantiated with the weighted mean, the "
                    "function values themselves are compared between the two real runs, not recomputed by the model); "
-                   "weighted objective and gradients legitimately live in optimizer coordinates and are not compared; evaluations that fail "
+                   "weighted objective and gradients legitimately live in optimizer coordinates and are not compared; the position of the result a "
+                   "'last' / 'best' tracker retains is checked inside Coq against the tracker model of Model/ConstraintInfo.v "
+                   "(C11_last_tracker_invariant; C12's Model/Tracker.v is not imported); evaluations that fail "
                    "(NaN) do not occur in the paired runs. Known finding "
                    "C11:explicit-step-variables (explicit variables= of a step is taken as optimizer-domain) is re-confirmed on tagged cases and "
                    "reported as KNOWN-FINDING; F11b (BasicOptimizer validated a configuration dict without the transforms) is fixed by 8c7c19c "
